@@ -112,6 +112,16 @@ def make_sites(lattice, frac_coords, labels=None, specie='Li') -> Structure:
     )
 
 
+def reference_cell(rng, lat):
+    """A cell that differs metrically from `lat` (each axis scaled by 0.94-1.06, a small shear): site structures taken from a
+    reference crystal carry such a cell; only their FRACTIONAL coordinates matter, distances are those of the simulation cell."""
+    lat = np.array(lat, dtype=float)
+    f = np.array([float(rng.choice([0.94, 0.97, 1.03, 1.06])) for _ in range(3)])
+    out = lat * f[:, None]
+    out[1] = out[1] + 0.03 * out[0]
+    return out
+
+
 def enc_m3(m) -> str:
     from .core import enc
     return ' '.join(enc(v) for row in np.asarray(m).tolist() for v in row)
